@@ -452,13 +452,14 @@ def nocross(case, impl):
         elif k == "r":
             if chR:
                 m = chR.pop(0)
-                if m[0] == "B" and pend > 0:
+                if m == "Ba" and pend > 0:
                     pend -= 1
     return True
 
 def pending_before(case, impl, upto):
-    """the realtime side's pending controllers before event `upto`, from the records alone:
-    an offered controller enters at the back, every delivered midi-bind removes the front"""
+    """the realtime side's pending controllers before event `upto`, from the records alone: an
+    offered controller enters at the back, every delivered midi-bind that answers a midi-use-CC
+    removes the front (same function as MidiSpec.pending_of)"""
     f = case.split(" ")
     evs = parse_events(f[2])
     recs, crashed, _ = parse_impl(impl)
@@ -467,12 +468,14 @@ def pending_before(case, impl, upto):
     for i, ((k, a), rec) in enumerate(zip(evs, recs)):
         if i >= upto:
             break
-        if k in "MUX" or k == "n":
-            chR += [it for it in rec if it in ("B", "W", "R")]
+        if k in "MUX":
+            chR += ["Bf" if it == "B" else it for it in rec if it in ("B", "W", "R")]
+        elif k == "n":
+            chR += ["Ba" for it in rec if it == "B"]
         elif k == "C":
             P += [int(it[1:]) for it in rec if it.startswith("U")]
         elif k == "r" and chR:
-            if chR.pop(0) == "B" and P:
+            if chR.pop(0) == "Ba" and P:
                 P.pop(0)
     return P
 
@@ -598,9 +601,12 @@ def spec_walk(case, impl):
                     return "protocol: assignment not announced (%s) at %s" % (rec, where), {}
                 chR.append(("B", dict(asgN), cid))
             else:
-                if rec != ["A%d:-" % cid]:
+                if rec == ["A%d:-" % cid, "B"]:       # told so: the announcement releases the controller on arrival
+                    chR.append(("B", dict(asgN), cid))
+                elif rec != ["A%d:-" % cid]:
                     return "learn: no address is queued, yet %s at %s" % (rec, where), {}
-                learning.discard(cid)
+                else:
+                    learning.discard(cid)
         elif k == "r":
             if not chR:
                 if rec != ["e"]:
@@ -640,20 +646,10 @@ def nontrivial(case, impl):
     return fail is None and info.get("assignments", 0) >= 2 and info.get("messages", 0) >= 2
 
 def classify(case, impl, failure):
-    """bind-crosses-use-cc: the history has a midi-bind crossing a midi-use-CC (not nocross) AND the
-    failure is the defect's own symptom: the controller concerned is pending on the realtime side
-    although no answer to it is outstanding (it is then never offered), or not pending although its
-    answer is outstanding (it is then offered a second time) - i.e. a midi-bind has removed a
-    controller other than the one it answers.  Every other failure in a crossing history is judged
-    like anywhere else."""
-    if nocross(case, impl):
-        return None
-    fail, ctx = spec_walk(case, impl)
-    if fail is None or "cid" not in ctx or not fail.startswith("learn:"):
-        return None
-    pending = ctx["cid"] in pending_before(case, impl, ctx["event"])
-    if pending != ctx["learning"]:
-        return "bind-crosses-use-cc"
+    """No known finding is left for C20: the class bind-crosses-use-cc (D19) was repaired in the
+    repository (MidiMapperStorage::answers); the old functions and the witness are in
+    coq/Midi/MidiRegress.v, the witness histories in corpus/C20/witnesses.txt.  Every Spec failure
+    is a violation, in crossing histories too."""
     return None
 
 def ring_of_state(state):
